@@ -222,8 +222,8 @@ func encodedSize(t types.Type) (int64, bool) {
 
 func runR163(c *core.Ctx, metaSize int64, okM bool, tokenSize int64) {
 	md := c.P.Named(relChunked, "metadata")
-	wr := c.P.Func(relChunked, "writeMetadata")
-	rdm := c.P.Func(relChunked, "readMetadata")
+	wr := findFunc(c, relChunked, "writeMetadata", roleMetaWriter)
+	rdm := findFunc(c, relChunked, "readMetadata", roleMetaReader)
 	if md == nil || wr == nil || rdm == nil || !okM {
 		c.Undecided("R16.3", "chunked#metadata-codec", "-", "metadata type, writer or reader not found")
 		return
